@@ -36,6 +36,8 @@ def install_ethnum(e):
 
     def u(v):
         v = e.deref(v)
+        if isinstance(v, E) and not v.fields:       # associated constants of ethnum::U256
+            return {'MAX': C((1 << 256) - 1), 'MIN': C(0), 'ZERO': C(0), 'ONE': C(1)}[v.var]
         return v.t
 
     def reg(rx):
@@ -150,37 +152,49 @@ def sdk_kind(r):
     return 'Err:' + str(name).split('::')[-1], None
 
 
-def leaf_task(sdk_fn, spec, mkargs, valid_kind, native):
-    """SDK function vs program spec, both flag values"""
+OVERFLOW_KINDS = ('MultiplicationOverflow', 'MulDivOverflow', 'MultiplicationShiftRightOverflow', 'NumberDownCastError', 'TokenMaxExceeded')
+
+
+def leaf_task(sdk_fn, spec, mkargs, valid_kind, native, in_bounds_only=False):
+    """SDK function vs the program's proved spec, both flag values.
+    per SDK Ok path:  (a) where the program accepts, the SDK's number is the program's number;
+                      (b) for every way the program rejects *as overflowing*: the SDK must not return a number there;
+    per SDK Err/panic path: (c) the program does not succeed there (for the price-stepping functions: does not succeed with an in-bounds price,
+                      which is the only regime compute_swap uses them in)."""
     def task(ctx):
         T.reset()
         e = M.Engine(sdk_mir(ctx))
         install_ethnum(e)
         obls = []
+        short = sdk_fn.split('::')[-1]
         for flag in (True, False):
             fb = TRUE if flag else FALSE
             args, sargs, names = mkargs(fb)
             outs = spec(e, *sargs)
             byk = {k: (c, v, sd) for k, c, v, sd in outs}
             cond_valid, v_spec, side = byk[valid_kind]
-            tag = f'sdk:{sdk_fn.split("::")[-1]}:flag={flag}'
+            accept = cond_valid
+            if in_bounds_only:
+                accept = T.and_(cond_valid, T.cmp('>=', v_spec, C(MINP)), T.cmp('<=', v_spec, C(MAXP)))
             n = 0
             for path, r in e.run(sdk_fn, args, Path()):
                 kind, val = sdk_kind(r)
-                key = f'{tag}:path{n}:{kind}'; n += 1
-                if kind == 'Panic':
-                    o = M.Obligation(key + ':no_panic', path.pc, FALSE, note=r.msg)
-                elif kind == 'Ok':
-                    o = M.Obligation(key + ':ok_implies_program_ok_same_value', path.pc + list(side), T.and_(cond_valid, T.cmp('=', val, v_spec)),
-                                     note='the SDK returns a number only where the program succeeds, and it is the program\'s number')
+                sfx = f'flag={flag}:path{n}'; n += 1
+                rp = dict(custom=diff_replay(native, names, flag))
+                if kind == 'Ok':
+                    o = M.Obligation(f'sdk:{short}:same_value_where_program_accepts:{sfx}', path.pc + list(side), T.implies(cond_valid, T.cmp('=', val, v_spec)),
+                                     note='where the program accepts the input, the SDK returns the program\'s value')
+                    o.replay = rp; obls.append(o)
+                    for k2, (c2, _, sd2) in byk.items():
+                        code = k2.split(':')[-1]
+                        if code in OVERFLOW_KINDS:
+                            o = M.Obligation(f'sdk:{short}:returns_number_where_program_rejects:{code}:{sfx}', path.pc + list(sd2), T.not_(c2),
+                                             note=f'the SDK must report an error on every input the program rejects with {code}')
+                            o.replay = rp; obls.append(o)
                 else:
-                    o = M.Obligation(key + ':err_implies_program_rejects', path.pc + list(side), T.not_(cond_valid),
-                                     note='the SDK never fails where the program succeeds')
-                nw = [ev[3] for ev in path.trace if ev[1] == 'nowrap']
-                o.replay = dict(custom=diff_replay(native, names, flag))
-                obls.append(o)
-                if nw and kind == 'Ok':
-                    o2 = M.Obligation(key + ':no_wrap_in_sdk_arithmetic', path.pc, T.and_(*nw)); o2.replay = dict(custom=diff_replay(native, names, flag)); obls.append(o2)
+                    o = M.Obligation(f'sdk:{short}:fails_where_program_accepts:{kind}:{sfx}', path.pc + list(side), T.not_(accept),
+                                     note='the SDK never fails where the program succeeds' + (' with an in-bounds price' if in_bounds_only else ''))
+                    o.replay = rp; obls.append(o)
         ctx.functions.update(e.executed)
         ctx.discharge(obls)
     return task
@@ -202,6 +216,10 @@ def sdk_native(fn, args):
     return subprocess.run([_sdk_exe['exe'], fn] + [str(int(a)) for a in args], capture_output=True, text=True, timeout=60).stdout.strip()
 
 
+def in_bounds_only_native(fn):
+    return fn.startswith('get_next_sqrt_price')
+
+
 def diff_replay(native, names, flag):
     prog_fn, sdk_fn = native
     def custom(env):
@@ -215,8 +233,11 @@ def diff_replay(native, names, flag):
         s_ok = so.startswith('Ok')
         sv = int(so.split()[1]) if s_ok else None
         info = f'program {prog_fn}({", ".join(map(str, vals))}) -> {po}; sdk {sdk_fn} -> {so}'
-        if s_ok and (not p_ok or pv != sv): return 'violates', info + ' : the SDK returns a number where the program rejects / a different number'
-        if not s_ok and p_ok: return 'violates', info + ' : the SDK fails where the program succeeds'
+        overflow = any(k in po for k in OVERFLOW_KINDS)
+        if s_ok and p_ok and pv != sv: return 'violates', info + ' : different values'
+        if s_ok and overflow: return 'violates', info + ' : the SDK returns a number where the program rejects the input as overflowing'
+        if not s_ok and p_ok and not (in_bounds_only_native(prog_fn) and not (MINP <= pv <= MAXP)):
+            return 'violates', info + ' : the SDK fails where the program succeeds'
         return 'holds', info
     return custom
 
@@ -254,15 +275,15 @@ def tick_task(ctx):
 def tasks():
     def delta_args(fb):
         p0 = T.var('p0', MINP, MAXP); p1 = T.var('p1', MINP, MAXP); L = T.var('L', 0, 2**128 - 1)
-        return [I(p0, 'u128'), I(p1, 'u128'), I(L, 'u128'), B(fb)], [p0, p1, L, fb], ['p0', 'p1', 'L']
+        return [I(p0, 'u128'), I(p1, 'u128'), I(L, 'u128'), B(fb)], [p0, p1, L, fb], [p0[1], p1[1], L[1]]
     def price_args(fb):
         p = T.var('p', MINP, MAXP); L = T.var('L', 0, 2**128 - 1); a = T.var('amt', 0, 2**64 - 1)
-        return [I(p, 'u128'), I(L, 'u128'), I(a, 'u64'), B(fb)], [p, L, a, fb], ['p', 'L', 'amt']
+        return [I(p, 'u128'), I(L, 'u128'), I(a, 'u64'), B(fb)], [p, L, a, fb], [p[1], L[1], a[1]]
     return [
         ('sdk:delta_a', leaf_task('math::token::try_get_amount_delta_a', SP.spec_try_delta_a, delta_args, 'Ok:Valid', ('try_get_amount_delta_a', 'try_get_amount_delta_a'))),
         ('sdk:delta_b', leaf_task('math::token::try_get_amount_delta_b', SP.spec_try_delta_b, delta_args, 'Ok:Valid', ('try_get_amount_delta_b', 'try_get_amount_delta_b'))),
-        ('sdk:next_a', leaf_task('math::token::try_get_next_sqrt_price_from_a', SP.spec_next_price_from_a, price_args, 'Ok', ('get_next_sqrt_price_from_a_round_up', 'try_get_next_sqrt_price_from_a'))),
-        ('sdk:next_b', leaf_task('math::token::try_get_next_sqrt_price_from_b', SP.spec_next_price_from_b, price_args, 'Ok', ('get_next_sqrt_price_from_b_round_down', 'try_get_next_sqrt_price_from_b'))),
+        ('sdk:next_a', leaf_task('math::token::try_get_next_sqrt_price_from_a', SP.spec_next_price_from_a, price_args, 'Ok', ('get_next_sqrt_price_from_a_round_up', 'try_get_next_sqrt_price_from_a'), True)),
+        ('sdk:next_b', leaf_task('math::token::try_get_next_sqrt_price_from_b', SP.spec_next_price_from_b, price_args, 'Ok', ('get_next_sqrt_price_from_b_round_down', 'try_get_next_sqrt_price_from_b'), True)),
         ('sdk:tick', tick_task),
     ]
 
